@@ -239,58 +239,262 @@ theorem exists_tri (p2k : List (Path × String)) (flat : List (Path × PyObj)) (
       obtain ⟨T, h3, h4⟩ := ih frest h2
       exact ⟨(p, k, py) :: T, by simp [h3], by simp [h4]⟩
 
-/-! ### the layout keeps the paths of the flat arguments, in order -/
+/-! ### the name generator: `fresh` leaves the loop with a name outside `taken` -/
 
-theorem layoutGo_paths (flat : List (Path × Ty)) (i : Nat) (res : List String) (acc : List (Path × String)) :
-    (layoutGo flat i res acc).2.map (·.1) = acc.map (·.1) ++ flat.map (·.1) := by
-  induction flat generalizing i res acc with
+theorem length_filter_le_of_imp {α : Type} (p q : α → Bool) (l : List α) (hqp : ∀ x, q x = true → p x = true) :
+    (l.filter q).length ≤ (l.filter p).length := by
+  induction l with
+  | nil => simp
+  | cons x xs ih =>
+    simp only [List.filter_cons]
+    by_cases hq : q x = true
+    · simp only [hq, hqp x hq, if_true, List.length_cons]; omega
+    · simp only [hq, Bool.false_eq_true, if_false]
+      split
+      · simp only [List.length_cons]; omega
+      · exact ih
+
+theorem length_filter_lt_of_imp {α : Type} (p q : α → Bool) (l : List α) (hqp : ∀ x, q x = true → p x = true)
+    (a : α) (ha : a ∈ l) (hpa : p a = true) (hqa : q a = false) : (l.filter q).length < (l.filter p).length := by
+  induction l with
+  | nil => simp at ha
+  | cons x xs ih =>
+    simp only [List.filter_cons]
+    rcases List.mem_cons.mp ha with rfl | hm
+    · have := length_filter_le_of_imp p q xs hqp
+      simp only [hpa, hqa, if_true, Bool.false_eq_true, if_false, List.length_cons]; omega
+    · have := ih hm
+      by_cases hq : q x = true
+      · simp only [hq, hqp x hq, if_true, List.length_cons]; omega
+      · simp only [hq, Bool.false_eq_true, if_false]
+        split
+        · simp only [List.length_cons]; omega
+        · exact this
+
+/-- every iteration of `while name in taken: name += '_'` uses up one element of `taken` that is at least as long as
+the candidate -/
+theorem freshGo_not_mem (taken : List String) : ∀ (fuel : Nat) (name : String),
+    (taken.filter fun s => decide (name.length ≤ s.length)).length < fuel → freshGo fuel taken name ∉ taken := by
+  intro fuel
+  induction fuel with
+  | zero => intro name h; omega
+  | succ n ih =>
+    intro name h
+    simp only [freshGo]
+    split
+    · rename_i hmem
+      apply ih
+      have hlen : (name ++ "_").length = name.length + 1 := by
+        rw [String.length_append]; rfl
+      have := length_filter_lt_of_imp (fun s => decide (name.length ≤ s.length))
+        (fun s => decide ((name ++ "_").length ≤ s.length)) taken
+        (fun x hx => by simp only [decide_eq_true_eq, hlen] at hx ⊢; omega)
+        name hmem (by simp) (by simp [hlen])
+      omega
+    · assumption
+
+/-- the loop terminates within the fuel, on a name that is not taken -/
+theorem fresh_not_mem (taken : List String) (name : String) : fresh taken name ∉ taken := by
+  apply freshGo_not_mem
+  have := List.length_filter_le (fun s => decide (name.length ≤ s.length)) taken
+  omega
+
+/-- … and it is the candidate itself when that is not taken (no collision: the name is the old one) -/
+theorem fresh_of_not_mem (taken : List String) (name : String) (h : name ∉ taken) : fresh taken name = name := by
+  simp [fresh, freshGo, h]
+
+/-! ### the layout: paths of the flat arguments in order, names pairwise different -/
+
+theorem layoutGo_paths (flat : List (Path × Ty)) (i : Nat) (res : List String) :
+    (layoutGo flat i res).map (·.1) = flat.map (·.1) := by
+  induction flat generalizing i res with
   | nil => simp [layoutGo]
   | cons e rest ih =>
     obtain ⟨p, t⟩ := e
     simp only [layoutGo]
     split <;> (try split) <;> simp [ih]
 
+theorem renameGo_paths (first : List (Path × String × Bool)) (taken : List String) :
+    (renameGo first taken).map (·.1) = first.map (·.1) := by
+  induction first generalizing taken with
+  | nil => simp [renameGo]
+  | cons e rest ih =>
+    obtain ⟨p, k, g⟩ := e
+    cases g <;> simp [renameGo, ih]
+
+/-- the declared names the first loop keeps are pairwise different (and none of them was reserved before) -/
+theorem layoutGo_declared (flat : List (Path × Ty)) (i : Nat) (res : List String) :
+    (declared (layoutGo flat i res)).Nodup ∧ ∀ k ∈ declared (layoutGo flat i res), k ∉ res := by
+  induction flat generalizing i res with
+  | nil => simp [layoutGo, declared]
+  | cons e rest ih =>
+    obtain ⟨p, t⟩ := e
+    simp only [layoutGo]
+    split
+    · rename_i k hk
+      split
+      · simpa [declared] using ih (i + 1) res
+      · rename_i hres
+        obtain ⟨h1, h2⟩ := ih (i + 1) (k :: res)
+        simp only [declared, List.nodup_cons, List.mem_cons]
+        refine ⟨⟨fun hm => ?_, h1⟩, ?_⟩
+        · exact h2 k hm List.mem_cons_self
+        · intro k' hk'
+          rcases hk' with rfl | hk'
+          · exact hres
+          · exact fun hm => h2 k' hk' (List.mem_cons_of_mem _ hm)
+    · simpa [declared] using ih (i + 1) res
+
+/-- the second loop: every name is a declared one or outside `taken`, and no two are equal -/
+theorem renameGo_names (first : List (Path × String × Bool)) (taken : List String)
+    (hd : (declared first).Nodup) (hsub : ∀ k ∈ declared first, k ∈ taken) :
+    ((renameGo first taken).map (·.2)).Nodup
+      ∧ ∀ n ∈ (renameGo first taken).map (·.2), n ∈ declared first ∨ n ∉ taken := by
+  induction first generalizing taken with
+  | nil => simp [renameGo]
+  | cons e rest ih =>
+    obtain ⟨p, k, g⟩ := e
+    cases g with
+    | false =>
+      simp only [declared, List.nodup_cons] at hd
+      simp only [declared, List.mem_cons] at hsub
+      obtain ⟨h1, h2⟩ := ih taken hd.2 (fun k' hk' => hsub k' (Or.inr hk'))
+      simp only [renameGo, List.map_cons, List.nodup_cons, List.mem_cons, declared]
+      refine ⟨⟨fun hm => ?_, h1⟩, ?_⟩
+      · rcases h2 k hm with h | h
+        · exact hd.1 h
+        · exact h (hsub k (Or.inl rfl))
+      · intro n hn
+        rcases hn with rfl | hn
+        · exact Or.inl (Or.inl rfl)
+        · rcases h2 n hn with h | h
+          · exact Or.inl (Or.inr h)
+          · exact Or.inr h
+    | true =>
+      simp only [declared] at hd hsub
+      have hf := fresh_not_mem taken k
+      obtain ⟨h1, h2⟩ := ih (fresh taken k :: taken) hd (fun k' hk' => List.mem_cons_of_mem _ (hsub k' hk'))
+      simp only [renameGo, List.map_cons, List.nodup_cons, List.mem_cons, declared]
+      refine ⟨⟨fun hm => ?_, h1⟩, ?_⟩
+      · rcases h2 _ hm with h | h
+        · exact hf (hsub _ h)
+        · exact h List.mem_cons_self
+      · intro n hn
+        rcases hn with rfl | hn
+        · exact Or.inr hf
+        · rcases h2 n hn with h | h
+          · exact Or.inl h
+          · exact Or.inr fun hm => h (List.mem_cons_of_mem _ hm)
+
+/-- the field names `get_type_layout` returns are pairwise different, whatever the arguments are -/
+theorem layout_names_nodup (flat : List (Path × Ty)) :
+    ((renameGo (layoutGo flat 0 []) (declared (layoutGo flat 0 []))).map (·.2)).Nodup :=
+  (renameGo_names _ _ (layoutGo_declared flat 0 []).1 (fun _ h => h)).1
+
+/-- without a collision nothing changes: when the candidates of the first loop (the names of the pinned tree) are
+already pairwise different, they are the names of the layout -/
+theorem renameGo_of_nodup (first : List (Path × String × Bool)) (taken : List String)
+    (hn : (first.map (·.2.1)).Nodup) (hg : ∀ e ∈ first, e.2.2 = true → e.2.1 ∉ taken) :
+    renameGo first taken = first.map fun e => (e.1, e.2.1) := by
+  induction first generalizing taken with
+  | nil => simp [renameGo]
+  | cons e rest ih =>
+    obtain ⟨p, k, g⟩ := e
+    simp only [List.map_cons, List.nodup_cons] at hn
+    cases g with
+    | false =>
+      simp only [renameGo, List.map_cons]
+      rw [ih taken hn.2 (fun e he => hg e (List.mem_cons_of_mem _ he))]
+    | true =>
+      have hk : k ∉ taken := hg (p, k, true) List.mem_cons_self rfl
+      simp only [renameGo, List.map_cons, fresh_of_not_mem taken k hk]
+      rw [ih (k :: taken) hn.2]
+      intro e he hge
+      simp only [List.mem_cons, not_or]
+      refine ⟨fun h => hn.1 (List.mem_map.mpr ⟨e, he, h⟩), hg e (List.mem_cons_of_mem _ he) hge⟩
+
+theorem declared_mem (first : List (Path × String × Bool)) (k : String) (h : k ∈ declared first) :
+    ∃ e ∈ first, e.2.1 = k ∧ e.2.2 = false := by
+  induction first with
+  | nil => simp [declared] at h
+  | cons e rest ih =>
+    obtain ⟨p, k', g⟩ := e
+    cases g with
+    | false =>
+      simp only [declared, List.mem_cons] at h
+      rcases h with rfl | h
+      · exact ⟨_, List.mem_cons_self, rfl, rfl⟩
+      · obtain ⟨e, he, h1, h2⟩ := ih h
+        exact ⟨e, List.mem_cons_of_mem _ he, h1, h2⟩
+    | true =>
+      simp only [declared] at h
+      obtain ⟨e, he, h1, h2⟩ := ih h
+      exact ⟨e, List.mem_cons_of_mem _ he, h1, h2⟩
+
+/-- in a list with pairwise different names two entries with the same name are the same entry -/
+theorem eq_of_name_eq {first : List (Path × String × Bool)} (hn : (first.map (·.2.1)).Nodup)
+    {e e' : Path × String × Bool} (he : e ∈ first) (he' : e' ∈ first) (h : e.2.1 = e'.2.1) : e = e' := by
+  induction first with
+  | nil => simp at he
+  | cons x xs ih =>
+    simp only [List.map_cons, List.nodup_cons] at hn
+    rcases List.mem_cons.mp he with rfl | hm <;> rcases List.mem_cons.mp he' with rfl | hm'
+    · rfl
+    · exact absurd (List.mem_map.mpr ⟨e', hm', h.symm⟩) hn.1
+    · exact absurd (List.mem_map.mpr ⟨e, hm, h⟩) hn.1
+    · exact ih hn.2 hm hm'
+
+theorem layout_unchanged_of_nodup (flat : List (Path × Ty))
+    (hn : ((layoutGo flat 0 []).map (·.2.1)).Nodup) :
+    renameGo (layoutGo flat 0 []) (declared (layoutGo flat 0 [])) = (layoutGo flat 0 []).map fun e => (e.1, e.2.1) := by
+  apply renameGo_of_nodup _ _ hn
+  intro e he hg hm
+  obtain ⟨e', he', h1, h2⟩ := declared_mem _ _ hm
+  have := eq_of_name_eq hn he' he h1
+  rw [this, hg] at h2
+  cases h2
+
 theorem getTypeLayout_idx (flat : List (Path × Ty)) (infer : Bool) :
     (getTypeLayout flat infer).idxToPath = flat.map (·.1) := by
   unfold getTypeLayout
-  have := layoutGo_paths flat 0 [] []
-  split
-  rename_i reserved p2k heq
-  rw [heq] at this
-  simp only [List.map_nil, List.nil_append] at this
-  split <;> simpa using this
+  have := renameGo_paths (layoutGo flat 0 []) (declared (layoutGo flat 0 []))
+  rw [layoutGo_paths] at this
+  simp only
+  split <;> exact this
+
+theorem getTypeLayout_p2k (flat : List (Path × Ty)) (infer : Bool) (p2k : List (Path × String))
+    (h : (getTypeLayout flat infer).pathToKey = some p2k) :
+    p2k = renameGo (layoutGo flat 0 []) (declared (layoutGo flat 0 [])) := by
+  unfold getTypeLayout at h
+  simp only at h
+  split at h
+  · cases h
+  · simp only [Option.some.injEq] at h; exact h.symm
 
 theorem getTypeLayout_p2k_paths (flat : List (Path × Ty)) (infer : Bool) (p2k : List (Path × String))
     (h : (getTypeLayout flat infer).pathToKey = some p2k) : p2k.map (·.1) = flat.map (·.1) := by
-  unfold getTypeLayout at h
-  have := layoutGo_paths flat 0 [] []
-  split at h
-  rename_i reserved p2k' heq
-  rw [heq] at this
-  simp only [List.map_nil, List.nil_append] at this
-  split at h
-  · cases h
-  · simp only [Option.some.injEq] at h; subst h; exact this
+  rw [getTypeLayout_p2k flat infer p2k h, renameGo_paths, layoutGo_paths]
+
+/-- the field names of a layout are pairwise different -/
+theorem getTypeLayout_names_nodup (flat : List (Path × Ty)) (infer : Bool) (p2k : List (Path × String))
+    (h : (getTypeLayout flat infer).pathToKey = some p2k) : (p2k.map (·.2)).Nodup := by
+  rw [getTypeLayout_p2k flat infer p2k h]; exact layout_names_nodup flat
 
 theorem getTypeLayout_k2p (flat : List (Path × Ty)) (infer : Bool) (p2k : List (Path × String))
     (h : (getTypeLayout flat infer).pathToKey = some p2k) :
     (getTypeLayout flat infer).keyToPath = some (p2k.foldl (fun d e => dset d e.2 e.1) []) := by
+  have hp := getTypeLayout_p2k flat infer p2k h
   unfold getTypeLayout at h ⊢
-  split at h
-  rename_i reserved p2k' heq
-  simp only [heq]
+  simp only at h ⊢
   split at h
   · cases h
   · rename_i hc
-    simp only [Option.some.injEq] at h; subst h
-    simp [hc]
+    simp [hc, hp]
 
 theorem getTypeLayout_none (flat : List (Path × Ty)) (infer : Bool)
     (h : (getTypeLayout flat infer).pathToKey = none) : (getTypeLayout flat infer).keyToPath = none := by
   unfold getTypeLayout at h ⊢
-  split at h
-  rename_i reserved p2k' heq
-  simp only [heq]
+  simp only at h ⊢
   split at h
   · rename_i hc; simp [hc]
   · cases h
@@ -874,7 +1078,7 @@ theorem P_pair (c : Cfg) (a : Ann) (l r : Ty) (hF : Pflat c (.pair a l r)) : P c
   have hty' := hty
   obtain ⟨x, y, rfl, hx, hy⟩ := hty
   simp only [inv, Bool.and_eq_true] at hinv
-  obtain ⟨flat, f1, f2, f3, f4, f5, f6⟩ := hF cmp (.pair x y) (by simp [leavesInv, hinv.1.2, hinv.2]) hty'
+  obtain ⟨flat, f1, f2, f3, f4, f5, f6⟩ := hF cmp (.pair x y) (by simp [leavesInv, hinv.1, hinv.2]) hty'
   rw [toPy_pair_eq, f1]
   simp only [Except.bind]
   have hidx : (pairLayout (.pair a l r)).idxToPath = flat.map (·.1) := by
@@ -897,10 +1101,7 @@ theorem P_pair (c : Cfg) (a : Ann) (l r : Ty) (hF : Pflat c (.pair a l r)) : P c
       | true => simp at hm
     subst hcmp
     simp only [Bool.false_eq_true, if_false] at hm
-    have hnames : (p2k.map (·.2)).Nodup := by
-      have := hinv.1.1
-      simp only [Bool.false_or, namesNodup, hm, decide_eq_true_eq] at this
-      exact this
+    have hnames : (p2k.map (·.2)).Nodup := getTypeLayout_names_nodup _ _ _ hm
     have hpaths : p2k.map (·.1) = flat.map (·.1) := by
       rw [getTypeLayout_p2k_paths _ _ _ hm, f5]
     obtain ⟨T, hT1, hT2⟩ := exists_tri p2k flat hpaths
@@ -930,11 +1131,9 @@ theorem P_pair (c : Cfg) (a : Ann) (l r : Ty) (hF : Pflat c (.pair a l r)) : P c
       exact f2
 
 theorem getTypeLayout_infer (flat : List (Path × Ty)) :
-    (getTypeLayout flat true).pathToKey = some (layoutGo flat 0 [] []).2 := by
+    (getTypeLayout flat true).pathToKey = some (renameGo (layoutGo flat 0 []) (declared (layoutGo flat 0 []))) := by
   unfold getTypeLayout
-  split
-  rename_i reserved p2k heq
-  simp [heq]
+  simp
 
 theorem toPy_or_eq (c : Cfg) (cmp : Bool) (a : Ann) (l r : Ty) (v : Val) :
     toPy c cmp (.or a l r) v =
@@ -965,14 +1164,11 @@ theorem toPy_or_eq (c : Cfg) (cmp : Bool) (a : Ann) (l r : Ty) (v : Val) :
 theorem P_or (c : Cfg) (a : Ann) (l r : Ty) (hO : Por c (.or a l r)) : P c (.or a l r) := by
   intro cmp v hinv hty
   simp only [inv, Bool.and_eq_true] at hinv
-  obtain ⟨path, py, o1, o2, o3, o4, o5⟩ := hO cmp v (by simp [orLeavesInv, hinv.1.2, hinv.2]) hty
+  obtain ⟨path, py, o1, o2, o3, o4, o5⟩ := hO cmp v (by simp [orLeavesInv, hinv.1, hinv.2]) hty
   have hp2k := getTypeLayout_infer (orArgs (.or a l r))
-  generalize hg : (layoutGo (orArgs (.or a l r)) 0 [] []).2 = p2k at hp2k
+  generalize hg : renameGo (layoutGo (orArgs (.or a l r)) 0 []) (declared (layoutGo (orArgs (.or a l r)) 0 [])) = p2k at hp2k
   have hpaths : p2k.map (·.1) = (orArgs (.or a l r)).map (·.1) := getTypeLayout_p2k_paths _ _ _ hp2k
-  have hnames : (p2k.map (·.2)).Nodup := by
-    have := hinv.1.1
-    simp only [namesNodup, orLayout, hp2k, decide_eq_true_eq] at this
-    exact this
+  have hnames : (p2k.map (·.2)).Nodup := getTypeLayout_names_nodup _ _ _ hp2k
   have hpnd : (p2k.map (·.1)).Nodup := by rw [hpaths]; exact (orArgs_paths _).1
   -- the name of the leaf the value lands on
   obtain ⟨name, hname⟩ : ∃ name, (path, name) ∈ p2k := by
@@ -1062,13 +1258,10 @@ theorem pair_record_keys (c : Cfg) (hu : c.unitHashable = true) (a : Ann) (l r :
   have hty' := hty
   obtain ⟨x, y, rfl, hx, hy⟩ := hty
   simp only [inv, Bool.and_eq_true] at hinv
-  obtain ⟨flat, f1, f2, f3, f4, f5, f6⟩ := hF false (.pair x y) (by simp [leavesInv, hinv.1.2, hinv.2]) hty'
+  obtain ⟨flat, f1, f2, f3, f4, f5, f6⟩ := hF false (.pair x y) (by simp [leavesInv, hinv.1, hinv.2]) hty'
   rw [toPy_pair_eq, f1]
   simp only [Except.bind, Bool.false_eq_true, if_false, hm]
-  have hnames : (p2k.map (·.2)).Nodup := by
-    have := hinv.1.1
-    simp only [Bool.false_or, namesNodup, hm, decide_eq_true_eq] at this
-    exact this
+  have hnames : (p2k.map (·.2)).Nodup := getTypeLayout_names_nodup _ _ _ hm
   have hpaths : p2k.map (·.1) = flat.map (·.1) := by
     rw [getTypeLayout_p2k_paths _ _ _ hm, f5]
   obtain ⟨T, hT1, hT2⟩ := exists_tri p2k flat hpaths
